@@ -155,9 +155,9 @@ def parseImpl (impl : String) : Option (Bool × List (Nat × Nat × Bytes) × St
   let (okS, reqS, rest) ← match ws with
     | a :: b :: rest => some (a, b, rest)
     | _ => none
-  let perio := match rest with
-    | [p] => if p.startsWith "perio=" then (p.drop 6).toString else ""
-    | _ => ""
+  let perio := match rest.find? (·.startsWith "perio=") with
+    | some p => (p.drop 6).toString
+    | none => ""
   let reqs ← if reqS == "_" then some [] else
     (splitOn1 reqS ';').mapM fun r => match splitOn1 r '/' with
       | [c, _, fl, hex] => do pure (← c.toNat?, ← parseHexNat fl, ← parseDash hex)
@@ -249,9 +249,15 @@ def eval (fn : String) (args : List String) (impl : String) : Option Verdict := 
     let (r, p) := if fn == "drv.urr.create" then createURR link seid cs else updateURR link seid cs
     let create := fn == "drv.urr.create"
     let spec := (specUrr cs).filter fun p => !(create && (p.period == some 0 || (p.periodic && p.period.isNone)))
-    pure { model := resShow r ++ " perio=" ++ perioShow p,
+    -- `rm=<groups>`: the periodic registrations left after a Remove URR that the data plane refused
+    let rm := ((impl.split (· == ' ')).toList.map (·.toString)).find? (·.startsWith "rm=")
+    pure { model := resShow r ++ " perio=" ++ perioShow p ++ (if rm.isSome then " rm=_" else ""),
            propFails := checkRule "C03" fn impl Cmd.addUrr spec UrrSpec.wfb readUrr (expectUrr link seid)
-                        ++ checkPerio (if create then "create" else "update") impl seid spec }
+                        ++ checkPerio (if create then "create" else "update") impl seid spec
+                        ++ (match rm with
+                            | some f => if f == "rm=_" then [] else
+                                [s!"C15 {fn}: the URR was removed (the data plane refused the removal: it had lost the rule) and is still registered for periodic querying: {f.drop 3}"]
+                            | none => []) }
   | "drv.bar.create" | "drv.bar.update" =>
     let cs ← toks.mapM parseBarChild
     pure { model := resShow (true, [barReq link seid (if fn == "drv.bar.create" then flCreate else flUpdate) cs]),
